@@ -725,11 +725,106 @@ def spec_returns(eng, args, kwargs, st):
     yield None, st
 
 
+# ----------------------------------------------------------------------------- maximum matchings (spec level)
+_MM = None
+
+
+def _mm_fn():
+    global _MM
+    if _MM is None:
+        _MM = z3.Function('mm', z3.IntSort(), z3.IntSort(), z3.ArraySort(z3.IntSort(), z3.IntSort(), z3.BoolSort()), z3.IntSort())
+    return _MM
+
+
+def _rel_term(eng, lam, st):
+    i, j = z3.Int(fresh_name('i')), z3.Int(fresh_name('j'))
+    body = None
+    saved = eng.spec_mode
+    eng.spec_mode = True           # a relation is a formula: no obligations, no path splitting while it is built
+    try:
+        for v, _ in call_lambda(eng, lam, [i, j], st):
+            body = to_z3(to_bool(v))
+    finally:
+        eng.spec_mode = saved
+    return z3.Lambda([i, j], body), (lambda a, b: z3.substitute(body, (i, to_z3(a)), (j, to_z3(b))))
+
+
+def max_matching(n, m, rel):
+    """size of a maximum one-to-one sub-relation of rel on range(n) x range(m) (augmenting paths)"""
+    match = [-1] * m
+
+    def try_(u, seen):
+        for v in range(m):
+            if rel(u, v) and not seen[v]:
+                seen[v] = True
+                if match[v] < 0 or try_(match[v], seen):
+                    match[v] = u
+                    return True
+        return False
+    return sum(1 for u in range(n) if try_(u, [False] * m))
+
+
+def spec_mm(eng, args, kwargs, st):
+    """mm(n, m, lambda i, j: R(i, j)): size of a maximum matching of relation R on range(n) x range(m)"""
+    n, m, lam = args
+    if not is_z3(n) and not is_z3(m):
+        def rel(a, b):
+            for v, _ in call_lambda(eng, lam, [a, b], st):
+                return concrete(to_bool(v)) if is_z3(to_bool(v)) else to_bool(v)
+        try:
+            yield max_matching(int(n), int(m), rel), st
+            return
+        except Exception:
+            pass
+    R, _ = _rel_term(eng, lam, st)
+    yield _mm_fn()(to_z3(n), to_z3(m), R), st
+
+
+def _mm_axiom(name):
+    def f(eng, args, kwargs, st):
+        eng.trusted_facts.add('maximum-matching fact mm_%s (mathematical property of maximum bipartite matchings, trusted, not machine-checked)' % name)
+        MM = _mm_fn()
+        if name == 'bounds':
+            n, m, lam = args
+            R, _ = _rel_term(eng, lam, st)
+            t = MM(to_z3(n), to_z3(m), R)
+            st.assume(and_(t >= 0, le(t, n), le(t, m)))
+        elif name == 'monotone':        # R1 subset of R2  ==>  mm(R1) <= mm(R2)
+            n, m, lam1, lam2 = args
+            R1, r1 = _rel_term(eng, lam1, st)
+            R2, r2 = _rel_term(eng, lam2, st)
+            i, j = z3.Int(fresh_name('i')), z3.Int(fresh_name('j'))
+            eng.oblige('lemma', 'mm-monotone-premise', st, z3.ForAll([i, j], z3.Implies(
+                z3.And(0 <= i, i < to_z3(n), 0 <= j, j < to_z3(m), r1(i, j)), r2(i, j))))
+            st.assume(MM(to_z3(n), to_z3(m), R1) <= MM(to_z3(n), to_z3(m), R2))
+        elif name == 'transpose':       # mm(n, m, R) == mm(m, n, R transposed)
+            n, m, lam1, lam2 = args
+            R1, r1 = _rel_term(eng, lam1, st)
+            R2, r2 = _rel_term(eng, lam2, st)
+            i, j = z3.Int(fresh_name('i')), z3.Int(fresh_name('j'))
+            eng.oblige('lemma', 'mm-transpose-premise', st, z3.ForAll([i, j], z3.Implies(
+                z3.And(0 <= i, i < to_z3(n), 0 <= j, j < to_z3(m)), r1(i, j) == r2(j, i))))
+            st.assume(MM(to_z3(n), to_z3(m), R1) == MM(to_z3(m), to_z3(n), R2))
+        elif name == 'diagonal':        # n == m and R(i, i) for all i  ==>  mm == n
+            n, m, lam = args
+            R, r = _rel_term(eng, lam, st)
+            i = z3.Int(fresh_name('i'))
+            eng.oblige('lemma', 'mm-diagonal-premise', st, z3.And(to_z3(eq(n, m)), z3.ForAll([i], z3.Implies(z3.And(0 <= i, i < to_z3(n)), r(i, i)))))
+            st.assume(MM(to_z3(n), to_z3(m), R) == to_z3(n))
+        yield None, st
+    return f
+
+
 def spec_loop_index(eng, args, kwargs, st):
     yield st.env['__idx%d' % int(args[0])], st
 
 
 SPEC = {
+    'mm': spec_mm,
+    'mm_bounds': _mm_axiom('bounds'),
+    'mm_monotone': _mm_axiom('monotone'),
+    'mm_transpose': _mm_axiom('transpose'),
+    'mm_diagonal': _mm_axiom('diagonal'),
     'loop_index': spec_loop_index,
     'array_of': spec_array_of,
     'returns': spec_returns,
